@@ -13,6 +13,23 @@ from . import discharge as D
 from . import models
 
 
+def _havoc_container(name):
+    """A module-level container the module mutates, seen from inside one call: membership of a key is an unconstrained boolean
+    (one per distinct key), a stored item is an opaque value; stores made on the path are remembered by Rec itself."""
+    from .rec import sym, _k
+    from .values import SBool
+    seen = {}
+
+    def contains(interp, me, item):
+        k = _k(item)
+        if k in me.stores:
+            return True
+        if k not in seen:
+            seen[k] = SBool(z3.Bool(f'{name}_has_key_{len(seen)}'))
+        return seen[k]
+    return sym(name, on_contains=contains)
+
+
 class FunctionUnderContract:
     def __init__(self, ex):
         self.ex = ex
@@ -89,6 +106,8 @@ class Harness:
         relpath = fuc.ex.relpath
         harness = self
 
+        havoc = {}
+
         def fallback(name, root):
             # a module-level helper *function* of the same file that has no contract of its own is inlined
             # (reported in the evidence); anything else stays unmodelled
@@ -99,6 +118,14 @@ class Harness:
                 # the real object, which works on concrete values and raises on symbolic ones (-> that path is undecided)
                 const = X.module_constant(relpath, name)
                 if const is not NotImplemented:
+                    if isinstance(const, (dict, list, set)) and X.module_state_mutated(relpath, name):
+                        # module-level mutable *state* (a cache the module writes into): arbitrary contents at entry
+                        if name not in havoc:
+                            note = f'module-level state {relpath}:{name} havocked (arbitrary contents at function entry)'
+                            if note not in harness.notes:
+                                harness.notes.append(note)
+                            havoc[name] = _havoc_container(name)
+                        return havoc[name]
                     return const            # a module-level literal constant
                 nt = X.module_namedtuple(relpath, name)
                 if nt is not None:
